@@ -99,6 +99,7 @@ class PathCtx:
         self.nfresh = 0
         self.counter = 0
         self.str_defs = {}        # string constant -> defining term (from assumed equalities)
+        self.fact_ids = set()     # ids of asserted facts (and of their top-level conjuncts)
         self.alts = []            # alternative prefixes discovered on this path
         self.trace = []
         self.assume(self.next0 >= 1)
@@ -118,13 +119,20 @@ class PathCtx:
         if z3.is_true(c):
             return
         if z3.is_eq(c) and c.arg(0).sort() == z3.StringSort():
-            a, b = c.arg(0), c.arg(1)
+            a, b = z3.simplify(c.arg(0)), z3.simplify(c.arg(1))
             for x, t in ((a, b), (b, a)):
                 if z3.is_const(x) and x.decl().kind() == z3.Z3_OP_UNINTERPRETED \
                         and not (z3.is_const(t) and t.decl().kind() == z3.Z3_OP_UNINTERPRETED
                                  and str(t) in self.str_defs):
                     self.str_defs.setdefault(str(x), t)
                     break
+        cid = c.get_id()
+        if cid in self.fact_ids:
+            return
+        self.fact_ids.add(cid)
+        if z3.is_and(c):
+            for ch in c.children():
+                self.fact_ids.add(ch.get_id())
         self.pc.append(c)
         self.solver.add(c)
 
